@@ -35,7 +35,7 @@ struct netbuf_read {
 	size_t buflen;			/* Length of buf. */
 	size_t bufpos;			/* Position of read pointer in buf. */
 	size_t datalen;			/* Position of write pointer in buf. */
-	size_t waitlen;			/* Bytes wanted by _wait. */
+	size_t waitpos;			/* Value of datalen wanted by _wait. */
 };
 
 static int callback_success(void *);
@@ -205,7 +205,7 @@ netbuf_read_wait(struct netbuf_read * R, size_t len,
 	}
 
 	/* Read data into the buffer. */
-	R->waitlen = len;
+	R->waitpos = R->bufpos + len;
 	if (readmore(R))
 		goto err0;
 
@@ -258,7 +258,7 @@ callback_read(void * cookie, ssize_t lenread)
 	R->datalen += (size_t)lenread;
 
 	/* If we don't have enough data yet, keep reading. */
-	if (R->datalen - R->bufpos < R->waitlen) {
+	if (R->datalen < R->waitpos) {
 		if (readmore(R))
 			goto failed;
 		return (0);
